@@ -1,6 +1,6 @@
 use super::*;
 use crate::{
-    ast_util::{range, strip_parentheses},
+    ast_util::{purge_trivia, range, strip_parentheses},
     standard_library::RobloxClass,
 };
 use std::{
@@ -33,7 +33,10 @@ fn is_lua_valid_table_key_identifier(string: &str) -> bool {
 }
 
 fn get_lua_table_key_format(expression: &ast::Expression) -> String {
-    match expression {
+    // The suggestion quotes the value itself, not the whitespace and comments around its tokens
+    let expression = purge_trivia(expression);
+
+    match &expression {
         ast::Expression::String(token) => {
             let string = token.to_string();
             if is_lua_valid_table_key_identifier(&string) {
@@ -246,7 +249,8 @@ impl Visitor for IncorrectRoactUsageVisitor<'_> {
             library_name = is_roact_or_react_create_element(call.prefix(), &suffixes);
 
             if let ast::Prefix::Name(name) = call.prefix() {
-                create_element_expression = format!("{}{}", name.token(), suffixes[0]);
+                create_element_expression =
+                    format!("{}{}", name.token(), purge_trivia(suffixes[0]));
             }
         }
 
